@@ -19,10 +19,14 @@
 (* for: everything must hold.  KeyMode "pyeq" is the key the code has:     *)
 (* TLC shows it is right except for NotSharedTypes on composite nodes      *)
 (* (Dev_CompositeKeyPyEq).  "noargs" / "notype" / "nostore" are the        *)
-(* negative controls.                                                      *)
+(* negative controls.  HitMode "identity" is the hit test the design needs *)
+(* (the cached value is never consulted); "ne" (compare the looked-up      *)
+(* value with the sentinel by !=) is a negative control: with result       *)
+(* objects that have their own equality protocol (kind "probe") TLC must   *)
+(* find a key computed twice / a call that raises.                         *)
 (***************************************************************************)
 EXTENDS C05_Pool, Json
-CONSTANTS PoolSel, ArgSel, MaxLen, KeyMode, StoreMode, Random
+CONSTANTS PoolSel, ArgSel, MaxLen, KeyMode, StoreMode, HitMode, Random
 VARIABLES hist, sts
 
 Pool == CASE PoolSel = "core"   -> PoolCore
@@ -42,7 +46,7 @@ Init == /\ hist = << >>
 
 Step(st, mk, p, q) ==
     IF ~st.live \/ ~ArgOk(mk, q) THEN [st EXCEPT !.live = FALSE]
-    ELSE LET c  == TopCall(KeyMode, StoreMode, st.tab, mk, Pool[p], ArgTab[q])
+    ELSE LET c  == TopCallH(KeyMode, StoreMode, HitMode, st.tab, mk, Pool[p], ArgTab[q])
              rn == RunEvents(st.memo, c.evs)
          IN  [tab |-> c.tab, memo |-> rn.ms, live |-> TRUE,
               v |-> IF st.v # "OK" THEN st.v ELSE rn.v]
